@@ -123,9 +123,16 @@ def run(ctx: Ctx):
         gts = [cfg.nodes[b].ast.test for b, lab in cfg.guards(cfg.node_for(lg[0])) if cfg.nodes[b].kind == "if" and lab.startswith("T")]
         ctx.check(any(S.m("dict_match(si, oi)", t, env) is not None for t in gts), "ALG-5", pr, lg[0], "product: rows are joined only when shared variables match",
                   str([name_free(pr, t) for t in gts]), "rows are joined without the match test")
-    sk = [n for n in ast.walk(pr.node) if isinstance(n, ast.If) and lenv and S.m("logit == -np.inf", n.test, lenv) is not None
-          and any(isinstance(b, ast.Continue) for b in n.body)]
-    ctx.check(bool(sk), "ALG-5", pr, sk[0] if sk else pr.node, "product: rows of zero probability (-inf) are dropped", "", "zero-probability joined rows are kept")
+    # on the path to the append the logit is known not to be -inf — `if logit == -inf: continue` and `if logit != -inf: append` alike
+    from ..util import lexical_guards as _lg, atomic_facts as _af
+    apps = [c for c in ast.walk(pr.node) if isinstance(c, ast.Call) and isinstance(c.func, ast.Attribute) and c.func.attr == "append" and lenv
+            and c.args and ast.unparse(c.args[0]) == str(lenv.get("logit"))]
+    sk = []
+    for c in apps:
+        facts = _af(_lg(pr, c))
+        if any(t_.replace(" ", "") in (f"{lenv.get('logit')}==-np.inf", f"-np.inf=={lenv.get('logit')}") and not tr for t_, tr in facts):
+            sk.append(c)
+    ctx.check(bool(sk) and len(sk) == len(apps), "ALG-5", pr, sk[0] if sk else pr.node, "product: rows of zero probability (-inf) are dropped", "", "zero-probability joined rows are kept")
     ctx.check(loop_ok, "ALG-5", pr, lp[0] if lp else pr.node, "product: all pairs of rows are considered", "", "join does not enumerate all row pairs")
     msol = S.solve(["soi = dict_merge(si, oi)", "jsupport.append(soi)"], lenv, within=loop) if (lenv and rsol and loop is not None) else None
     ok = rsol is not None and lenv is not None and msol is not None
